@@ -370,8 +370,17 @@ def check_property(prop, tier, seed, rebaseline=False, jobs=None):
         "solver_seconds": round(sum(v["seconds"] for f in functions for v in f["obligations"].values()), 3),
         "baseline_regressions": sorted(oid for oid in base_proved if oid not in proved_ids),
     }
+    # mechanical scan: every assumed contract and assumed lemma the deductive part rests on
+    scanned = []
+    for k, c in contracts.items():
+        if k.startswith("__"):
+            continue
+        if c.get("assumed"):
+            scanned.append(f"assumed contract (not verified here; callers are checked against it): {k.split(':')[1]} ensures {c.get('ensures')} raises {sorted(c.get('raises', {}))}")
+        for ax in c.get("axioms", []):
+            scanned.append(f"assumed lemma in the proof of {k.split(':')[1]}: {ax}")
     ev = {"property_id": prop, "tier": tier, "seed": seed, "level": level, "coverage": cov,
-          "assumptions": list(getattr(mod, "ASSUMPTIONS", [])), "wall_s": wall, "violations": len(violations)}
+          "assumptions": list(getattr(mod, "ASSUMPTIONS", [])) + scanned, "wall_s": wall, "violations": len(violations)}
     try:
         import jsonschema
         schema = json.loads(Path("/root/.vp/EVIDENCE.schema.json").read_text())
